@@ -193,6 +193,10 @@ func (in *Interp) loadReinterpret(p Ptr) V {
 		if w2, _, ok2 := intWidth(re); ok2 && w2 == w {
 			return in.readCell(c)
 		}
+		// narrower view of a wider integer: little-endian (amd64) low bytes
+		if w2, _, ok2 := intWidth(re); ok2 && w2 < w && !(w == 8 && c.Parent != nil) {
+			return Extract(in.readCell(c).(*Term), w2-1, 0)
+		}
 		// byte element of an array viewed as a wider little-endian integer
 		if w == 8 && c.Parent != nil {
 			if w2, _, ok2 := intWidth(re); ok2 && w2%8 == 0 {
